@@ -322,6 +322,7 @@ pub fn model(glob: &str, o: Opts, path: &[u8]) -> Option<bool> {
 pub const GLOB_TOKENS: &[&str] = &[
     "a", "b", ".", "-", "A", "/", "?", "*", "**", "[ab]", "[!a]", "[a-b]",
     "{a,b}", "{a,*.b}", "\\*", "[.]", "{ab,a/b}", "\\a", "[!.]", "{,a}",
+    "\\/",
 ];
 
 /// Join tokens into glob text. `**` is only emitted as a whole component.
@@ -329,8 +330,8 @@ pub fn join(tokens: &[&str]) -> Option<String> {
     let mut s = String::new();
     for (i, t) in tokens.iter().enumerate() {
         if *t == "**" {
-            let prev_ok = i == 0 || tokens[i - 1] == "/";
-            let next_ok = i + 1 == tokens.len() || tokens[i + 1] == "/";
+            let prev_ok = i == 0 || tokens[i - 1] == "/" || tokens[i - 1] == "\\/";
+            let next_ok = i + 1 == tokens.len() || tokens[i + 1] == "/" || tokens[i + 1] == "\\/";
             if !prev_ok || !next_ok {
                 return None;
             }
@@ -689,6 +690,19 @@ pub fn run(ctx: &Ctx) -> Report {
         let source: Vec<String> = if family {
             rep.count("family_sets");
             family_globs(rng)
+        } else if i % 5 == 4 {
+            // random sequences over ALL tokens (the exhaustive enumeration
+            // only uses the first `ntok` of them), up to 6 tokens long
+            rep.count("random_token_sets");
+            let mut v = vec![];
+            while v.len() < block {
+                let n = rng.range(2, 6);
+                let sel: Vec<&str> = (0..n).map(|_| rng.pick(GLOB_TOKENS)).collect();
+                if let Some(g) = join(&sel) {
+                    v.push(g);
+                }
+            }
+            v
         } else {
             globs[bi * block..((bi + 1) * block).min(globs.len())].to_vec()
         };
